@@ -337,7 +337,7 @@ class PContract(FSContract):
 
 class JobDirs(PContract):
     target = f"{PRJ}.Project._job_dirs"
-    properties = ("C02", "C03", "C07", "C08", "C09")
+    properties = ("C02", "C03", "C07", "C08", "C09", "C12")
 
     def loops(self, case):
         def inv(interp, fr, i, seq):
